@@ -49,7 +49,7 @@ type tlsTrial struct {
 
 func runInbound(id int, rnd *rand.Rand, port int, reader *recReader, victim *madeCert) tlsTrial {
 	// certificate
-	kinds := []string{"none", "noext", "len", "len", "copied", "honest", "honest", "honest"}
+	kinds := []string{"none", "noext", "len", "len", "copied", "honest", "honest", "honest", "copied-ed25519", "copied-rsa", "honest-ed25519", "chain-victim", "chain-victim-noext", "honest-chain"}
 	kind := kinds[rnd.Intn(len(kinds))]
 	var mc *madeCert
 	var err error
@@ -68,6 +68,19 @@ func runInbound(id int, rnd *rand.Rand, port int, reader *recReader, victim *mad
 		mc, err = makeCert(certSpec{ski: victim.ext}, "peer")
 	case "honest":
 		mc, err = makeCert(certSpec{useKey: true}, "peer")
+	case "copied-ed25519":
+		mc, err = makeCert(certSpec{ski: victim.ext, alg: "ed25519"}, "peer")
+	case "copied-rsa":
+		mc, err = makeCert(certSpec{ski: victim.ext, alg: "rsa"}, "peer")
+	case "honest-ed25519":
+		mc, err = makeCert(certSpec{useKey: true, alg: "ed25519"}, "peer")
+	case "chain-victim":
+		// the peer's own leaf carries a wrong-length SKI, the victim's genuine certificate follows in the chain
+		mc, err = makeCert(certSpec{ski: []byte{1, 2, 3}, chain: victim.tls.Certificate}, "peer")
+	case "chain-victim-noext":
+		mc, err = makeCert(certSpec{ski: nil, chain: victim.tls.Certificate}, "peer")
+	case "honest-chain":
+		mc, err = makeCert(certSpec{useKey: true, chain: victim.tls.Certificate}, "peer")
 	}
 	if err != nil {
 		return tlsTrial{"bad-cert " + err.Error(), "skip"}
